@@ -42,6 +42,8 @@ class _Gen:
         self.base = 0
         self.ty = {}
         self.hot = []          # variables that got different types on different paths
+        self.exprs = False     # expression-level constructs (comprehensions, walrus, ifexp, and/or)
+        self.bools = []        # bool variables bk / bj assigned so far
 
     # ---- helpers -----------------------------------------------------------
     def chance(self, p):
@@ -95,6 +97,8 @@ class _Gen:
         r = self.r
         if self.consts and allow_const and self.chance(0.30):
             return r.choice(["True", "False", "True", "False", "not False", "not True"])
+        if self.exprs and not self.in_nested and self.chance(0.36):
+            return self.expr_cond()
         u = r.random()
         if u < 0.30:
             return "c1"
@@ -106,10 +110,106 @@ class _Gen:
             return "n > 0"
         return self.pick_read() + " > 0"
 
+    # ---- expression-level constructs -------------------------------------------
+    def int_arm(self, depth):
+        """An int-typed operand; sometimes an assignment expression (binds only if evaluated)."""
+        r = self.r
+        u = r.random()
+        if u < 0.35:
+            v = self.pick_target()
+            self.note_assign(v, depth + 1)
+            return "(%s := %s)" % (v, r.choice(["1", "2", "n"]))
+        if u < 0.6:
+            return "n"
+        return r.choice(["1", "2", "3"])
+
+    def bool_operand(self, depth, first):
+        r = self.r
+        u = r.random()
+        if u < 0.22:
+            return r.choice(["c1", "c2"])
+        if u < 0.34:
+            return "n > 0"
+        if u < 0.50:
+            return "0 <= n < 5"
+        if u < 0.60:
+            return self.pick_read() + " > 0"
+        if u < 0.85:
+            v = self.pick_target()
+            self.note_assign(v, depth if first else depth + 1)
+            return "(%s := %s) > 0" % (v, r.choice(["1", "n", "2"]))
+        if self.bools:
+            return r.choice(self.bools)
+        return "not c1"
+
+    def expr_cond(self):
+        """A condition with expression-level control flow and/or bindings."""
+        r = self.r
+        d = self.base + 1       # bindings inside conditions are recorded as 'not sure'
+        u = r.random()
+        if u < 0.22:
+            v = self.pick_target()
+            self.note_assign(v, self.base if False else d)
+            return "(%s := %s) > 0" % (v, r.choice(["n", "1", self.pick_read()]))
+        if u < 0.42:
+            return "%s %s %s" % (self.bool_operand(d, True), r.choice(["and", "or"]), self.bool_operand(d, False))
+        if u < 0.50:
+            v = self.pick_target()
+            self.note_assign(v, d)
+            return "(%s := %s if %s else %s) > 0" % (v, self.int_arm(d), r.choice(["c1", "c2", "n > 0"]), self.int_arm(d))
+        if u < 0.86:
+            mid = r.choice(["n", "(%s := n)" % self.pick_target(), self.pick_read()])
+            return "0 <= %s < 5" % mid
+        if u < 0.92:
+            b = r.choice(["bk", "bj"])
+            if b not in self.bools:
+                self.bools.append(b)
+            return "(%s := %s)" % (b, r.choice(["c1 and c2", "c1 or n > 0", "0 <= n < 5", "n > 0 and c2"]))
+        return "(%s if %s else %s) > 0" % (self.int_arm(d), r.choice(["c1", "c2"]), self.int_arm(d))
+
+    def expr_stmt(self, depth):
+        r = self.r
+        u = r.random()
+        if u < 0.42:
+            # comprehension: the loop variable is local to it (may shadow an outer local)
+            v = r.choices(POOL, POOL_W)[0] if self.chance(0.8) else "k"
+            elt = r.choice([v, v + " + 1", v + " + n", "n", self.pick_read(), v + " * " + v])
+            if self.chance(0.7):
+                return "ys = array(%s for %s in range(3))" % (elt, v)
+            return "zs = [%s for %s in range(3)]" % (elt, v)
+        if u < 0.50:
+            v, w = self.pick_target(), self.pick_target()
+            self.note_assign(w, depth)
+            self.note_assign(v, depth)
+            return "%s = (%s := %s) + 1" % (v, w, r.choice(["5", "n", "2"]))
+        if u < 0.64:
+            v, w = self.pick_target(), self.pick_target()
+            self.note_assign(w, depth)
+            self.note_assign(v, depth)
+            return "%s = (%s := %s if %s else %s)" % (v, w, self.int_arm(depth), r.choice(["c1", "c2", "n > 0"]), self.int_arm(depth))
+        if u < 0.78:
+            v = self.pick_target()
+            a, b = self.int_arm(depth), self.int_arm(depth)
+            self.note_assign(v, depth)
+            return "%s = %s if %s else %s" % (v, a, r.choice(["c1", "c2", "n > 0", self.pick_read() + " > 0"]), b)
+        if u < 0.90:
+            b1, b2 = r.choice([("bk", "bj"), ("bj", "bk")])
+            for b in (b1, b2):
+                if b not in self.bools:
+                    self.bools.append(b)
+            return "%s = (%s := %s)" % (b1, b2, r.choice(["c1 and c2", "0 <= n < 5", "c1 or c2", "n > 0 and c1"]))
+        if self.bools:
+            return r.choice(self.bools)
+        v = self.pick_target()
+        self.note_assign(v, depth)
+        return "(%s := %s)" % (v, r.choice(["1", "2"]))
+
     # ---- statements -----------------------------------------------------------
     def simple(self, depth):
         """One simple (non-jump) statement."""
         r = self.r
+        if self.exprs and not self.in_nested and self.chance(0.42):
+            return self.expr_stmt(depth)
         u = r.random()
         if not self.in_nested and self.chance(0.03):
             self.note_assign("n", depth)
@@ -213,6 +313,9 @@ class _Gen:
         n = max(1, min(n, self.budget))
         saved_sure = list(self.sure)
         body = self.block(depth, in_loop, n, force_exit)
+        if self.exprs and not self.in_nested and self.chance(0.16):
+            v = self.r.choices(POOL, POOL_W)[0]
+            body = ["ys = array(%s for %s in range(3))" % (self.r.choice([v, v + " + 1", v + " + n"]), v)] + body
         self.sure = saved_sure  # nothing inside a compound is "sure"
         return [IND + l for l in body]
 
@@ -336,12 +439,13 @@ def _max_indent(lines):
     return m
 
 
-def gen_program(r, size=None, consts=False, nested=True):
+def gen_program(r, size=None, consts=False, nested=True, exprs=False):
     if size is None:
         size = r.choice([3, 4, 5, 6, 7, 8, 9, 10, 12, 14])
     size = max(1, int(size) - 3)
     while True:
         g = _Gen(r, size, consts, nested)
+        g.exprs = exprs
         body = []
         # a few programs start with initialisations, so that accepted programs
         # stay common
